@@ -1,5 +1,7 @@
 //! sv-harness: runs the real crate in-process on generated cases and prints, per case,
 //! `<case line>\t<implementation's canonicalised answers>\t<tags>`.
+mod codec;
+mod langs;
 mod rng;
 mod suites;
 mod util;
@@ -107,6 +109,7 @@ fn main() {
         let c = match suite.as_str() {
             "sm" => suites::slotmap::replay(&body),
             "slot" => suites::slot::replay(&body),
+            "shape" => suites::shape::replay(&body),
             _ => panic!("unknown suite"),
         };
         ctx.emit(c);
@@ -114,6 +117,7 @@ fn main() {
         match suite.as_str() {
             "sm" => suites::slotmap::run(&mut ctx),
             "slot" => suites::slot::run(&mut ctx),
+            "shape" => suites::shape::run(&mut ctx),
             _ => panic!("unknown suite"),
         }
     }
